@@ -1174,7 +1174,10 @@ class BaseGateway:
             log(self._geterrortext(exc))
         log("finishing receiving thread")
         # wake up and terminate any execution waiting to receive
-        self._channelfactory._finished_receiving()
+        # (under the receive lock, like every message handler: a concurrent
+        # setcallback() must see the channel either before or after its end)
+        with self._receivelock:
+            self._channelfactory._finished_receiving()
         log("terminating execution")
         self._terminate_execution()
         log("closing read")
